@@ -10,13 +10,13 @@
     TraceMtEncoder; the output must be one valid Stream decoding to the input, identical to the 1-thread output,
     with Block boundaries exactly at block_size multiples / requested offsets, and decodable at each completed flush.
 """
-import json, os, concurrent.futures as cf
+import json, os, re, concurrent.futures as cf
 from lib import tlc, build, tracev
 from lib.ctx import MachineryError
 from harness.mt import mtlib
 
-QUICK_MC = ["q_plain", "q_flush", "q_fail", "q_timeout", "nw1", "live", "reinit", "reinit_fixed"]
-ALL_MC = ["plain", "bs1", "flush", "q_barrier", "fail", "spur", "timeout", "nw1", "live", "reinit", "reinit_fixed", "reinit_fixed3", "update"]
+QUICK_MC = ["q_plain", "q_flush", "q_fail", "q_timeout", "nw1", "live", "reinit", "reinit_fixed", "reinit_bs", "reinit_bs_fixed"]
+ALL_MC = ["plain", "bs1", "flush", "q_barrier", "fail", "spur", "timeout", "nw1", "live", "reinit", "reinit_fixed", "reinit_fixed3", "reinit_bs", "reinit_bs_fixed", "update"]
 
 def model_check(ctx):
     names = QUICK_MC if ctx.quick else ALL_MC
@@ -31,6 +31,12 @@ def model_check(ctx):
                 # re-initialisation part of the model); the repaired behaviour is checked by reinit_fixed.
                 if r.violation != "NoLostWorker":
                     raise MachineryError("MCMtEncoder_reinit.cfg (released 5.8.1 variant) no longer violates NoLostWorker: %s" % r.summary())
+                continue
+            if n == "reinit_bs":
+                # FixBlockSize = FALSE: xz 5.8.1 as released reuses the workers' input buffers when the handle is
+                # re-initialised with a larger block_size; must violate InBufFits (reinit_bs_fixed: repaired tree)
+                if r.violation != "InBufFits":
+                    raise MachineryError("MCMtEncoder_reinit_bs.cfg (released 5.8.1 variant) no longer violates InBufFits: %s" % r.summary())
                 continue
             if r.violation:
                 ctx.violation("model:%s:%s" % (n, r.violation),
@@ -76,6 +82,7 @@ def run(ctx):
     from harness.pydrv import lz, coders
     L = build.lib("asan"); lz.load(L["so"])
     exe = mtlib.driver("tsan")
+    exe_asan = mtlib.driver("asan")
     rng = ctx.rng
     wd = ctx.workdir
     inputs = [("text", coders.rand_data(rng, 150000, "text")), ("rand", coders.rand_data(rng, 90000, "rand")),
@@ -114,10 +121,16 @@ def run(ctx):
                     # the same handle given to lzma_stream_encoder_mt() again without lzma_end(), then a full encode
                     p2 = dict(p, seed=seed + 7, endafter=-1, reinit_after=rng.randint(1, 6), watchdog=12)
                     jobs.append((g, p2, acts))
+                    # ... and with another block_size the second time (larger or smaller): the workers' input
+                    # buffers must fit the new size.  One of the two runs under ASan instead of TSan.
+                    nbs = rng.choice([bs * 2 + rng.randrange(0, 5000), max(4096, bs // 2 - rng.randrange(0, 3000))])
+                    p4 = dict(p, seed=seed + 17, endafter=-1, reinit_after=rng.randint(1, 6), reinit_blocksize=nbs, watchdog=12)
+                    jobs.append((g, p4, acts))
+                    jobs.append((g, dict(p4, seed=seed + 19, reinit_after=rng.randint(3, 12), asan=1), acts))
     def exec_job(idx):
         g, params, acts = jobs[idx]
-        p = {k: v for k, v in params.items() if not (k == "actions" and v == "")}
-        res = mtlib.run_driver(exe, "enc", g["path"], os.path.join(wd, "eo.%d" % idx), os.path.join(wd, "et.%d" % idx), **p)
+        p = {k: v for k, v in params.items() if not (k == "actions" and v == "") and k != "asan"}
+        res = mtlib.run_driver(exe_asan if params.get("asan") else exe, "enc", g["path"], os.path.join(wd, "eo.%d" % idx), os.path.join(wd, "et.%d" % idx), **p)
         out = open(os.path.join(wd, "eo.%d" % idx), "rb").read() if os.path.exists(os.path.join(wd, "eo.%d" % idx)) else b""
         return idx, res, out
     with cf.ThreadPoolExecutor(8) as ex:
@@ -126,7 +139,12 @@ def run(ctx):
     for idx, res, out in results:
         g, params, acts = jobs[idx]
         label = "%s:T%d:bs%d:to%d:seed%d:%s%s" % (g["inp"], g["nw"], g["bs"], g["timeout"], params["seed"], params["actions"],
-                                                  ":reinit%d" % params["reinit_after"] if "reinit_after" in params else "")
+                                                  (":reinit%d" % params["reinit_after"] if "reinit_after" in params else "") +
+                                                  (":bs%d" % params["reinit_blocksize"] if "reinit_blocksize" in params else "") +
+                                                  (":asan" if params.get("asan") else ""))
+        # block_size in effect for the Stream that is finished (the run may end before the re-initialisation is due)
+        did_reinit = any(e["e"] == "Reinited" for e in res["events"])
+        bs_eff = params["reinit_blocksize"] if did_reinit and "reinit_blocksize" in params else g["bs"]
         ctx.case(key=label)
         rp = dict(kind="run", mode="enc", params=params, input=g["inp"])
         # a run that re-initialises the handle while Blocks are still being encoded: known-broken history class
@@ -157,6 +175,13 @@ def run(ctx):
         if res["hang"]:
             violation("hang:%s:T%d:to%d" % (g["inp"], g["nw"], g["timeout"]),
                           "driver watchdog fired: deadlock or lost wake-up\n" + json.dumps(res["events"][-10:]), rp)
+            continue
+        if "AddressSanitizer" in res["stderr"]:
+            kind = re.search(r"AddressSanitizer: ([a-z-]+)", res["stderr"])
+            fn = re.search(r"#\d+ 0x[0-9a-f]+ in (\w+) [^\n]*src/liblzma", res["stderr"])
+            violation("asan:%s:%s%s" % (kind.group(1) if kind else "report", fn.group(1) if fn else "?",
+                                        ":reinit-blocksize" if "reinit_blocksize" in params else ""),
+                      "AddressSanitizer report in a threaded encoder run (%s)\n%s" % (label, res["stderr"][:3000]), rp)
             continue
         if res["rc"] not in (0, 66):
             violation("crash:%s" % g["inp"], "driver exit %s\n%s" % (res["rc"], res["stderr"][-3000:]), rp)
@@ -210,13 +235,13 @@ def run(ctx):
                             violation("finish:update-chain:%s" % g["inp"], "delta distances in the Block Headers %s differ from "
                                       "the chains given to the workers %s (%s)" % (hdr[:10], dist_by_blk[:10], label), rp)
                     got = [b["outsz"] for b in lay["blocks"]]
-                    exp = expected_boundaries(len(data), g["bs"], [o for _, o in acts])
+                    exp = expected_boundaries(len(data), bs_eff, [o for _, o in acts])
                     if got != exp or any(b["hdr"] != "ok" for b in lay["blocks"]):
                         violation("finish:boundaries:%s" % g["inp"], "Block sizes %s, expected %s (%s)" % (got[:12], exp[:12], label), rp)
                     # determinism: same bytes as the single-thread run with the same options and actions
-                    rk = (g["inp"], g["bs"], params["actions"]) if "updates" not in params else None
+                    rk = (g["inp"], bs_eff, params["actions"]) if "updates" not in params else None
                     if rk is not None and rk not in ref_cache:
-                        p1 = dict(threads=1, blocksize=g["bs"], seed=1, slicing=0)
+                        p1 = dict(threads=1, blocksize=bs_eff, seed=1, slicing=0)
                         if params["actions"]:
                             p1["actions"] = params["actions"]
                         r1 = mtlib.run_driver(exe, "enc", g["path"], os.path.join(wd, "ref.out"), os.path.join(wd, "ref.tr"), **p1)
